@@ -2,7 +2,7 @@
    Only the property theorems, each closed by [exact] and followed by Print Assumptions.
    h_* / op_* = helper bodies and plain operators of cbuiltins.lua over the C semantics of CSem.v
    (OUB = undefined behaviour); nl / cl = the compiler's and the C compiler's layout functions. *)
-From C03 Require Import Model ProofsBase ProofsDiv ProofsShiftBase ProofsShift ProofsMisc ProofsEmitShift ProofsLayoutArith ProofsLayout ProofsEq.
+From C03 Require Import Model ProofsBase ProofsDiv ProofsTdiv ProofsShiftBase ProofsShift ProofsMisc ProofsEmitShift ProofsLayoutArith ProofsLayout ProofsEq.
 Local Open Scope Z_scope.
 
 (* ---- core 2: UB-freedom of the run-time helpers, every integer width ---- *)
@@ -42,9 +42,10 @@ Theorem C03_asr_no_ub_gnu : forall m t a b, m_gnushl m = true -> ity_ok t -> in_
 Proof. exact h_asr_no_ub_gnu. Qed.
 Print Assumptions C03_asr_no_ub_gnu.
 
-Theorem C03_asr_no_ub_fwrapv_refuted : ~ asr_no_ub_fwrapv_full.
-Proof. exact asr_no_ub_fwrapv_refuted. Qed.
-Print Assumptions C03_asr_no_ub_fwrapv_refuted.
+(* (a remark, not a defect: no supported compiler implements FWRAPV without the GNU treatment of `<<`) *)
+Theorem C03_asr_needs_gnu_shl : h_asr FWRAPV I64 (-1) (-1) = OUB /\ h_asr GNU I64 (-1) (-1) = ORet (-2).
+Proof. exact asr_needs_gnu_shl. Qed.
+Print Assumptions C03_asr_needs_gnu_shl.
 
 (* the three shift operators exactly as operators.shl/shr/asr emit them - plain C operator for a constant count
    below the width that the generator compares against (scraped into Gen.v: the shifted operand's width),
@@ -58,13 +59,61 @@ Print Assumptions C03_emitted_shifts_no_ub.
 
 Theorem C03_cmp_helpers_no_ub : forall lt rt a b,
   h_lt_su lt rt a b <> OUB /\ h_lt_us lt rt a b <> OUB /\ h_eq_su lt rt a b <> OUB.
-Proof. intros. repeat split; [apply h_lt_su_no_ub|apply h_lt_us_no_ub|apply h_eq_su_no_ub]. Qed.
+Proof. exact (fun lt rt a b => conj (h_lt_su_no_ub lt rt a b) (conj (h_lt_us_no_ub lt rt a b) (h_eq_su_no_ub lt rt a b))). Qed.
 Print Assumptions C03_cmp_helpers_no_ub.
 
 Theorem C03_arith_no_ub : forall m t a b, m_wrapv m = true ->
   op_add m t a b <> OUB /\ op_sub m t a b <> OUB /\ op_mul m t a b <> OUB /\ op_unm m t a <> OUB.
-Proof. intros. destruct (op_arith_no_ub m t a b H) as (A & B & C). repeat split; auto. apply op_unm_no_ub; auto. Qed.
+Proof.
+  exact (fun m t a b H => match op_arith_no_ub m t a b H with
+                          | conj A (conj B C) => conj A (conj B (conj C (op_unm_no_ub m t a H))) end).
+Qed.
 Print Assumptions C03_arith_no_ub.
+
+(* ---- the hypotheses `m_wrapv m = true` / `m_gnushl m = true` discharged for every supported build: base_mode is
+   computed from the scraped cflags_base of gcc AND clang (losing -fwrapv in either breaks this proof) ---- *)
+Theorem C03_supported_builds_no_ub :
+  (forall t checked a b, In t signed_types -> in_ity t a -> in_ity t b -> (checked = true \/ b <> 0) ->
+     emitted_idiv_helper idiv_guard_first base_mode t checked a b <> OUB /\
+     emitted_imod_helper imod_guard_first base_mode t checked a b <> OUB) /\
+  (forall t ct cnt a b, ity_ok t -> in_ity t a -> in_ity I64 b ->
+     emit_shl shl_fast_width_left base_mode t ct cnt a b <> OUB /\
+     emit_shr shr_fast_width_left base_mode t ct cnt a b <> OUB /\
+     emit_asr asr_fast_width_left base_mode t ct cnt a b <> OUB) /\
+  (forall t a b, op_add base_mode t a b <> OUB /\ op_sub base_mode t a b <> OUB /\ op_mul base_mode t a b <> OUB) /\
+  (forall t a, op_unm base_mode t a <> OUB).
+Proof.
+  exact (conj (fun t checked a b => emitted_div_helpers_no_ub base_mode t checked a b base_mode_wrapv)
+        (conj (fun t ct cnt a b => emitted_shifts_no_ub base_mode t ct cnt a b base_mode_gnushl)
+        (conj (fun t a b => op_arith_no_ub base_mode t a b base_mode_wrapv)
+              (fun t a => op_unm_no_ub base_mode t a base_mode_wrapv)))).
+Qed.
+Print Assumptions C03_supported_builds_no_ub.
+
+(* ---- truncating division / remainder `///` `%%%`, and `//` `%` on operands that cannot be negative ----
+   full statement: defined for all operands of the type (the language gives them no precondition, and the
+   default build is supposed to stop with a run-time error rather than execute undefined C).
+   False: they are emitted as bare C `/` and `%` in every build mode (cbuiltins.operators.tdiv/tmod, and
+   operators.idiv/mod through operator_binary_op when neither operand can be negative).  Witnesses replayed under
+   UBSan on every run: int64 MIN /// -1, MIN %%% -1, 5 /// 0, 5 %%% 0, uint64 5 // 0, 5 % 0 (known findings). *)
+Theorem C03_tdiv_no_ub_refuted : ~ tdiv_no_ub_full.
+Proof. exact tdiv_no_ub_refuted. Qed.
+Print Assumptions C03_tdiv_no_ub_refuted.
+
+Theorem C03_udiv_no_ub_refuted : ~ udiv_no_ub_full.
+Proof. exact udiv_no_ub_refuted. Qed.
+Print Assumptions C03_udiv_no_ub_refuted.
+
+(* what holds: defined whenever the divisor is not zero and the operation is not MIN / -1 *)
+Theorem C03_tdiv_no_ub_partial : forall t a b, ity_ok t -> in_ity t a -> in_ity t b -> b <> 0 -> (b <> -1 \/ a <> imin t) ->
+  op_tdiv t a b <> OUB /\ op_tmod t a b <> OUB.
+Proof. exact tdiv_no_ub_partial. Qed.
+Print Assumptions C03_tdiv_no_ub_partial.
+
+Theorem C03_udiv_no_ub_partial : forall gf m t nochecks a b, ity_ok t -> isigned t = false -> in_ity t a -> in_ity t b -> b <> 0 ->
+  emit_idiv gf m t false nochecks a b <> OUB /\ emit_imod gf m t false nochecks a b <> OUB.
+Proof. exact udiv_no_ub_partial. Qed.
+Print Assumptions C03_udiv_no_ub_partial.
 
 (* float -> integer narrowing: `(D)x != x` is evaluated on every x *)
 Theorem C03_narrow_float_defined_refuted : ~ narrow_float_defined_full.
@@ -91,10 +140,7 @@ Print Assumptions C03_prims_agree.
 Theorem C03_layout_agrees : forall t, wfb t = true ->
   nl t = cl t /\ static_assert_holds t = true /\
   (forall fs packed aligned, t = TRec fs packed aligned -> nl_offsets fs packed = cl_offsets fs packed).
-Proof.
-  intros t H. split; [apply (layout_agree t H)|]. split; [apply static_assert_ok; exact H|].
-  intros fs packed aligned ->. eapply offsets_ok; exact H.
-Qed.
+Proof. exact layout_agrees_all. Qed.
 Print Assumptions C03_layout_agrees.
 
 (* ---- core 3: bytes passed to memcmp by nelua_eq_<type>, full strength ---- *)
